@@ -43,6 +43,9 @@ def gen(seed: int, tier: str) -> dict[str, Any]:
     for i in range(n_s):
         t += rng.choice([0.0, 0.0, 0.001, 0.019, 0.02, 0.021, 0.1, 0.6])
         ops.append({"t": round(t, 6), "op": "send", "id": i + 1})
+        if rng.random() < 0.2:
+            # a point-to-point frame (transport layer control or data) instead of group data - paced like any other
+            ops[-1]["tl"] = rng.choice(["connect", "disconnect", "ack", "nak", "data", "individual"])
     tmax = t + 0.3
     n_b = rng.choice([0, 1, 2, 4, 8])
     tb = rng.uniform(0.0, tmax)
@@ -88,9 +91,16 @@ def run(plan: dict[str, Any]) -> dict[str, Any]:
     busy_in: list[tuple[int, float, int]] = []    # delivered busy frames (n, t, wait)
     info: dict[str, Any] = {}
 
+    def pid_of(c):
+        if c and not c["group"]:
+            return c["dst"] - 0x2000        # point-to-point frames carry their id in the destination address
+        return int.from_bytes(c["tpdu"][2:4], "big") if c and len(c["tpdu"]) >= 4 else -1
+
+    tl_of = {o["id"]: o["tl"] for o in plan["ops"] if o["op"] == "send" and o.get("tl")}
+
     def on_cemi(raw: bytes):
         c = W.parse_cemi_ldata(bytes(raw))
-        pid = int.from_bytes(c["tpdu"][2:4], "big") if c and len(c["tpdu"]) >= 4 else -1
+        pid = pid_of(c)
         if raw[0] == W.L_DATA_CON:
             cons.append((R.record("con", "routing", pid), loop.time(), pid))
 
@@ -104,6 +114,11 @@ def run(plan: dict[str, Any]) -> dict[str, Any]:
 
         async def do_send(pid):
             raw = W.cemi_ldata(W.L_DATA_REQ, 0, GA, tpci_apci=W.gv_write(pid.to_bytes(2, "big")))
+            if pid in tl_of:
+                tp = {"connect": b"\x80", "disconnect": b"\x81", "ack": b"\xc2", "nak": b"\xc3", "data": b"\x43\x00",
+                      "individual": b"\x03\x00"}[tl_of[pid]]
+                raw = W.cemi_ldata(W.L_DATA_REQ, 0, 0x2000 + pid, group=False, tpci_apci=tp, ctrl1=0xB0)
+                R.extra_faults["point_to_point_frame_sent"] += 1
             rec = sends[pid] = {"call": R.record("op_call", "user", pid), "t_call": loop.time(), "out": None}
             try:
                 await routing.send_cemi(CEMIFrame.from_knx(raw))
@@ -159,8 +174,7 @@ def run(plan: dict[str, Any]) -> dict[str, Any]:
             sp = W.split(bytes.fromhex(detail))
             if sp and sp[0] == W.ROUTING_IND:
                 c = W.parse_cemi_ldata(sp[1])
-                pid = int.from_bytes(c["tpdu"][2:4], "big") if c and len(c["tpdu"]) >= 4 else -1
-                inds.append((n, t, pid))
+                inds.append((n, t, pid_of(c)))
         elif kind == "udp_in" and "/m" not in str(actor) and str(actor).endswith(f">{client_ip}:3671"):
             sp = W.split(bytes.fromhex(detail))
             if sp and sp[0] == W.ROUTING_BUSY and len(sp[1]) >= 4:
